@@ -1459,7 +1459,9 @@ class TractList(_TRSTractList):
                 if isinstance(elem, dict):
                     elem = ','.join([f"{k}:{v}" for k, v in elem.items()])
                 elif isinstance(elem, (list, tuple)):
-                    elem = ', '.join(elem)
+                    # Flatten any nested lists/tuples (e.g. flag lines),
+                    # and allow for non-string elements (e.g. `.ilots`).
+                    elem = ', '.join(str(e) for e in flatten(elem))
                 scrubbed.append(elem)
             return scrubbed
 
